@@ -6,13 +6,14 @@ import common
 import rfigc_util as ru
 from common import hx
 
-LEAN_MODULES = ["Pff.Props.C16", "Pff.Props.Csv", "Pff.Props.Path"]
+LEAN_MODULES = ["Pff.Props.C16", "Pff.Props.Csv", "Pff.Props.Path", "Pff.Props.RfigcDb"]
 PROP_MODULE = "Pff.Props.C16"
 THEOREMS = ["Pff.Rfigc.C16_remove_only_missing", "Pff.Rfigc.C16_append_once", "Pff.Rfigc.C16_initial_consistent",
             "Pff.Rfigc.C16_converge", "Pff.Rfigc.C16_stale_witness",
             "Pff.Csv.C05_csv_roundtrip",
             "Pff.Csv.C16_csv_append",
             "Pff.Csv.C05_db_roundtrip",
+            "Pff.RfigcDb.C16_db_file_append", "Pff.RfigcDb.C05_db_file_roundtrip",
             "Pff.Path.PATH_gen_root_independent", "Pff.Path.PATH_single_file"]
 MODELLED = [("pyFileFixity/rfigc.py", "main"), ("pyFileFixity/lib/_compat.py", "_csv_writer")]
 TRUSTED_BASE = [
